@@ -1,4 +1,5 @@
 import IpamVerif.Safety
+import IpamVerif.Restart
 /-!
 # C01 — no two nodes are ever given overlapping pod CIDRs
 
@@ -12,11 +13,15 @@ no two nodes that exist and are not being deleted hold overlapping pod CIDRs.  U
 ClusterCIDRs, families, block sizes and steps.  The proof is an inductive invariant of the whole controller model
 (`Safety.Inv`, `Safety.inv_step`).
 
+**With restarts at any instant** (`no_two_nodes_overlap_with_restarts`, from `Restart.lean`): the same statement for
+histories in which the controller is stopped and started again any number of times, under the conditions listed in
+`Props/C03.lean` (ClusterCIDRs deleted only once the finalizer is on them, not edited, names not re-used while cached).
+
 **The assignment step, with no assumption at all** (`Recorded.lean`): a block handed out overlaps no CIDR that any
 pool records, and the reservation precedes the write.
 
 **Outside the fragment** the property is *false* on the pinned code — each exclusion is a recorded finding with a
-witness replayed on the implementation on every run: restarts and label edits (P10, P12, P8), overlapping
+witness replayed on the implementation on every run: label edits, also followed by a restart (P8, P10), overlapping
 ClusterCIDRs (P9, P11, P12, P22), node writes applied but reported as failed (P13), nodes created with or handed
 pod CIDRs by someone else (P18), a node re-created before its deletion was delivered (P21), tombstones with a
 stale state (P19).  There the correspondence check and the judge (`checklib/judge_hist.py`) do the work.
@@ -29,6 +34,12 @@ theorem no_two_nodes_overlap (s : Sys) (hs : Inv s) (evs : List Ev) (hf : FragAl
     ∀ x ∈ (run s evs).api.nodes, ∀ y ∈ (run s evs).api.nodes, x.name ≠ y.name → x.deleting = false → y.deleting = false →
       ∀ a ∈ x.cidrs, ∀ b ∈ y.cidrs, a.fam = b.fam → a.Disjoint b :=
   no_overlap_ever s hs evs hf
+
+/-- **C01 on the fragment with restarts** -/
+theorem no_two_nodes_overlap_with_restarts (s : Sys) (hs : Restart.Inv3 s) (evs : List Ev) (hf : Restart.Frag3All s evs) :
+    ∀ x ∈ (run s evs).api.nodes, ∀ y ∈ (run s evs).api.nodes, x.name ≠ y.name → x.deleting = false → y.deleting = false →
+      ∀ a ∈ x.cidrs, ∀ b ∈ y.cidrs, a.fam = b.fam → a.Disjoint b :=
+  Restart.no_overlap_across_restarts s hs evs hf
 
 /-- the fragment is closed under prefixes, so the statement holds at every moment of the history, in particular
 right after every write of pod CIDRs -/
